@@ -186,6 +186,13 @@ impl ZerokitMerkleTree for PmTree {
         values: I,
     ) -> Result<()> {
         let v = values.into_iter().collect::<Vec<_>>();
+        if v.is_empty() {
+            // nothing is written: the number of leaves set must not move
+            if start > self.capacity() {
+                return Err(Report::msg("provided range exceeds set size"));
+            }
+            return Ok(());
+        }
         self.tree
             .set_range(start, v.clone().into_iter())
             .map_err(|e| Report::msg(e.to_string()))?;
